@@ -54,6 +54,8 @@ def expand(block, tier):
         return
     n = 0
     for case in C07.expand(block, tier):
+        if (case.get("free") or {}).get("blank") is not None:
+            continue  # blank-only cells belong to C07's closure invariant (nothing is written, so there is no text to show)
         n += 1
         case["delim"] = ["::", ":", "::", ": ", " :: ", "::", " : ", ":: "][n % 8]
         case["arg"] = [False, True, "both"][n % 3] if case["dl"] is not None else False
